@@ -56,9 +56,17 @@ package security
 //@   props C06 C07 C17
 //@   requires wf: [typeinv:session_cache.go] cacheWF(c)
 //@   requires entry_given: entry != nil
-//@   assigns lock(&c.mu), mapof(c.sessions)
+//@   assigns lock(&c.mu), mapof(c.sessions), mapof(c.commandMap)
+//@   let replaces = old(has(c.sessions, entry.id)) && old(c.sessions[entry.id]) != entry
+//@   loop 1 invariant locked: held(&c.mu) && c.sessions == old(c.sessions) && c.commandMap == old(c.commandMap) && replaces
+//@   loop 1 invariant settled: forall k :: visited(1, k) && has(c.commandMap, k) ==> c.commandMap[k] != entry.id
+//@   loop 1 invariant other_routes: forall k :: (has(c.commandMap, k) ==> old(has(c.commandMap, k)) && c.commandMap[k] == old(c.commandMap[k])) && (old(has(c.commandMap, k)) && old(c.commandMap[k]) != entry.id ==> has(c.commandMap, k))
+//@   loop 1 invariant sessions_untouched: forall k :: has(c.sessions, k) == old(has(c.sessions, k)) && c.sessions[k] == old(c.sessions[k])
 //@   ensures stored: has(c.sessions, entry.id) && c.sessions[entry.id] == entry
 //@   ensures others_kept: forall k :: k != entry.id ==> has(c.sessions, k) == old(has(c.sessions, k)) && c.sessions[k] == old(c.sessions[k])
+//@   ensures replaced_session_loses_its_routes: [C07] replaces ==> forall k :: has(c.commandMap, k) ==> c.commandMap[k] != entry.id
+//@   ensures other_routes_kept: [C07] forall k :: old(has(c.commandMap, k)) && old(c.commandMap[k]) != entry.id ==> has(c.commandMap, k) && c.commandMap[k] == old(c.commandMap[k])
+//@   ensures routes_kept_unless_replaced: [C07] !replaces ==> forall k :: has(c.commandMap, k) == old(has(c.commandMap, k)) && c.commandMap[k] == old(c.commandMap[k])
 //@   ensures wf_kept: cacheWF(c)
 
 //@ func (*SessionCache).Lookup (c, id) (result, ok)
@@ -478,7 +486,7 @@ package security
 //@   assert before call NewSessionEntry #1 outcome_recorded_with_the_session: [C06] adKind[arg3]["Authenticated"] == 3 && adInt[arg3]["Authenticated"] == ite(negotiation.Authentication, 1, 0) && (negotiation.User != "" ==> adKind[arg3]["User"] == 1 && adStr[arg3]["User"] == negotiation.User) && adStr[arg3]["CryptoMethods"] == negotiation.NegotiatedCrypto
 //@   requires given: a.config != nil && negotiation != nil && negotiation.ServerConfig != nil
 //@   let keyed = len(negotiation.sharedSecret) > 0 && aesName(negotiation.NegotiatedCrypto)
-//@   assigns clockNow, when(keyed, lock(&GetSessionCache().mu)), when(keyed, mapof(GetSessionCache().sessions))
+//@   assigns clockNow, when(keyed, lock(&GetSessionCache().mu)), when(keyed, mapof(GetSessionCache().sessions)), when(keyed, mapof(GetSessionCache().commandMap))
 //@   assert before call NewSessionEntry #1 keyed_entry: arg2 != nil && arg0 == sessionID && arg6 == a.config.SecurityTag
 
 //@ func (*Authenticator).createPostAuthAd (a, negotiation) (result)
